@@ -150,7 +150,7 @@ def run(ctx):
                            bad["accepted_prefix"], bad["of"], bad["event"][:300]), detail={k: bad[k] for k in ("accepted_prefix", "of", "event")}, files=bad["files"])
     # 4. the four-phase object API (alloc / init / destroy / free, new / delete; single and array forms; seventeen types, 204 functions): ObjLife is the
     #    machine of legal call orders, TLC generates call sequences, h_objs executes them under the ledger and Trace_ObjLife holds the readings of every
-    #    call to the footprint rules (alloc one block, linear in n; free = -alloc; destroy = -init; new = alloc + init; delete = -new; a function of (type, n))
+    #    call to conservation per slot (an empty slot holds nothing; raw memory holds the same every time; nothing damaged or freed twice)
     r = tlc.run_tlc("MC_ObjLife", cfg="MC_ObjLife.cfg", workdir=ctx.dir, workers=4)
     if not tlc.expect_ok(ctx, r, "MC_ObjLife"):
         raise CheckBroken("specification ObjLife violates %s" % r.violated)
@@ -162,7 +162,7 @@ def run(ctx):
         if bad and bad.get("crash"):
             ctx.violation("h_objs died on %s/%s rc=%s %s" % (be, kb, bad["rc"], bad["err"]), key="h_objs crash %s %s" % (be, kb), files=bad["files"])
         elif bad:
-            ctx.violation("object API call sequence on %s/%s breaks the footprint rules of ObjLife (%s): accepted %d of %d events, rejected event %s" %
+            ctx.violation("object API call sequence on %s/%s breaks the conservation rules of ObjLife (%s): accepted %d of %d events, rejected event %s" %
                           (be, kb, bad["violated"] or "a call allocates / releases something other than its counterpart, leaks, writes a red zone, frees twice, or crashed",
                            bad["accepted_prefix"], bad["of"], bad["event"][:300]), detail={k: bad[k] for k in ("accepted_prefix", "of", "event")}, files=bad["files"])
     ctx.assume("decided: heap out-of-bounds WRITES (red zones of 64 bytes around every block of the process), leaks, double frees, use of freed or uninitialised heap memory that changes a result or an export (two fill patterns, poison on free)")
